@@ -505,6 +505,7 @@ package node_info
 //@   ensures [acceptedOwn] task.AcceptedResource == old(task.AcceptedResource) || acceptedFresh(task)   // added by helper "cache"
 //@   ensures [keyRecorded] pod_info.podKeyOf(task.Pod) in ni.PodInfos   // added by helper "cache": also when the call fails the pod is (still) recorded
 //@   ensures [recordsNonNil] old(forall k in ni.PodInfos :: ni.PodInfos[k] != nil) ==> (forall k in ni.PodInfos :: ni.PodInfos[k] != nil)   // added by helper "cache"
+//@   ensures [stmt2-recordedGroups] result == nil ==> sameGroups(storedTask(ni, task), task)   // added by helper "stmt2": the recorded copy sits on the GPU groups the task had at call time
 //@   ensures nodeWF(ni) && podsWF(ni) && taskWF(task)
 //@ end
 
@@ -528,6 +529,7 @@ package node_info
 //@   ensures [acceptedOwn] task.AcceptedResource == old(task.AcceptedResource) || acceptedFresh(task)   // added by helper "cache"
 //@   ensures [keyRecorded] pod_info.podKeyOf(task.Pod) in ni.PodInfos   // added by helper "cache": also when the call fails the pod is (still) recorded
 //@   ensures [recordsNonNil] old(forall k in ni.PodInfos :: ni.PodInfos[k] != nil) ==> (forall k in ni.PodInfos :: ni.PodInfos[k] != nil)   // added by helper "cache"
+//@   ensures [stmt2-recordedGroups] result == nil ==> sameGroups(storedTask(ni, task), task)   // added by helper "stmt2": the recorded copy sits on the GPU groups the task had at call time
 //@   ensures nodeWF(ni) && podsWF(ni) && taskWF(task)
 //@ end
 
